@@ -14,7 +14,7 @@ git -C /repo worktree remove --force $wt
 # our check
 git -C /repo apply $src/patch.diff || { echo "patch does not apply to /repo"; exit 2; }
 ( cd /verif && VERIF_NOCACHE=1 ./bin/check $prop > /tmp/seed_check.txt 2>&1; echo "check_exit=$?" )
-git -C /repo checkout -- .
+git -C /repo apply -R $src/patch.diff || echo "WARNING: could not revert patch"
 grep -E "VIOLATION|^property" /tmp/seed_check.txt | cut -c1-220 | head -8
 mkdir -p /verif/seeded/$name && cp $src/patch.diff $src/demo_test.go $src/meta.json /verif/seeded/$name/ 2>/dev/null
 python3 - "$name" "$prop" <<'PY'
